@@ -186,7 +186,8 @@ PROPS["C19"] = {
             "counter arithmetic in 128-bit ghost arithmetic, continuity of posn/counter/buffered block across calls), clear() erases.",
     "assumptions": [COMPOSE,
                     "extraction (engine/arduino_extract.py, re-run on every check): g++ -E of the .cpp (host macros: the USE_AVR_INLINE_ASM branches are preprocessed away, comments dropped); "
-                    "the data members of the leaf class and its bases become file-scope objects initialised as the constructor chain initialises them (single object, no `this`); "
+                    "the data members of the leaf class and its bases become file-scope objects initialised as the constructor chain initialises them (single object, no `this`; a constructor body may only "
+                    "zero-fill array members - memset(m, 0, sizeof(m)), the value static storage has anyway - anything else is an extraction break); "
                     "virtual calls are resolved statically to the most derived definition; default arguments are written out; calls through CTRCommon::blockCipher become the "
                     "external functions BlockCipher__*() with role contracts; the one-argument clean(T&) template is expanded to clean(&x, sizeof x) with the body of clean() "
                     "taken verbatim from Crypto.cpp; method and helper bodies are the preprocessed text, unchanged",
